@@ -58,13 +58,24 @@ def _case(draw, tier):
         else:
             ops.append([kind, i, draw(st.sampled_from(["sql", "api"]))])
             open_[i] = False
-    return {"ops": ops}
+    return {"ops": ops, "context": draw(st.sampled_from(["connect-arguments", "connect-arguments", "use-after-connect"]))}
 
 
 def run_tx(case, ctx: Ctx) -> None:
     fs = new_instance()
     try:
-        conns = [fs.connect("db1", "s1") for _ in range(NCONN)]
+        how = case.get("context", "connect-arguments")
+        if how == "connect-arguments":
+            conns = [fs.connect("db1", "s1") for _ in range(NCONN)]
+        elif how == "use-after-connect":
+            # sessions opened without any context that get theirs from USE: still one transaction scope per connection
+            fs.connect("db1", "s1")
+            conns = [fs.connect() for _ in range(NCONN)]
+            for c in conns:
+                c.cursor().execute("USE SCHEMA DB1.S1")
+        else:
+            raise InvalidCase()
+        ctx.cls(f"context:{how}")
         curs = [[c.cursor(), c.cursor()] for c in conns]
         curs[0][0].execute("CREATE TABLE SH (K INT, V INT, OWNER INT)")
         curs[0][0].execute("CREATE TABLE EXISTING (X INT)")
